@@ -32,6 +32,7 @@ EXPLANATION = (
     "lexeme kept for the name); R12.6 naming: every field __eq__ compares is rendered by __str__, and an "
     "injectivity detector (grouping erased + printer without parentheses => two different trees, one name)."
     " R12.7 the used-variables extractor finds every data column a call mentions (C09's R9.4)."
+    ' R12.8 the formula text reaches the scanner untouched. R12.9 a literal reaches the evaluation as the scanner built it.'
 )
 ASSUMPTIONS = [
     "Python language reference, operator precedence table (6.17) and comparison chaining (6.10)",
